@@ -357,6 +357,103 @@ class WriteGvf(Contract):
 
 
 # ----------------------------------------------------------------------------
+# reading the records of one pointer
+# ----------------------------------------------------------------------------
+class _Block13:
+    """the bytes / text read through a pointer: m record lines separated by line feeds (a field may contain other characters that
+    str.splitlines() also treats as line boundaries)"""
+    def __init__(self, owner, stage='bytes'):
+        self.owner, self.stage = owner, stage
+
+    def sym_method(self, I, name, a, k):
+        st = self.owner._cur
+        if name == 'decode' and self.stage == 'bytes':
+            return _Block13(self.owner, 'text')
+        if name in ('rstrip', 'strip') and self.stage == 'text' and not a:
+            return _Block13(self.owner, 'stripped')
+        zz = lambda j: j if is_z3(j) else z3.IntVal(j)
+        if name == 'split' and list(a) == ['\n'] and self.stage == 'stripped':
+            return FnView(st.m, lambda j: SymObj('BlockLine13', j=zz(j)), tag='lines of the block')
+        if name == 'split' and list(a) == ['\n']:
+            # without stripping the trailing line feed first there is an empty piece at the end
+            return FnView(st.m + 1, lambda j: SymObj('BlockLine13', j=zz(j)), tag='lines of the block and an empty piece')
+        if name == 'splitlines' and not a:
+            # also splits at form feeds, U+2028, ... inside a field
+            extra = I.e.int('n_other_line_boundaries_inside_fields')
+            I.e.assume(extra >= 0)
+            return FnView(st.m + extra, lambda j: SymObj('BlockPiece13', j=zz(j)), tag='pieces of the block')
+        raise Unsupported(f'block.{name}{tuple(a)}')
+
+
+@register
+class PointerIter(Contract):
+    """iterating a pointer reads exactly its byte range [start, end) of the GVF file and yields one record per line of that block - split at
+    line feeds only, as the scan that made the pointer does - parsed by the reader of the file kind (circRNA or variant), in order"""
+    path, qualname, props = GVI, 'GVFPointer.__iter__', ('C13', 'C06')
+    assumptions = ('assumed: a pointer made by iterate_pointer covers whole lines and ends with a line feed (contract of iterate_pointer); the block decodes as UTF-8',)
+
+    def setup(self, I):
+        e = I.e
+        st = types.SimpleNamespace(log=[], yielded=[])
+        st.cur, st.start, st.end, st.m = e.int('handle_position'), e.int('pointer_start'), e.int('pointer_end'), e.int('n_lines_in_block')
+        e.assume(z3.And(st.cur >= 0, 0 <= st.start, st.start < st.end, st.m >= 1))
+        st.is_circ = e.bool('is_circ_rna')
+        st.handle = SymObj('GvfHandle13p')
+        st.args = [SymObj('GVFPointer', handle=st.handle, key=OpaqueStr(['key']), start=st.start, end=st.end, is_circ_rna=st.is_circ)]
+        self._cur = st
+        return st
+
+    @property
+    def models(self):
+        c = self
+
+        def inst(reg):
+            reg.method_('GvfHandle13p', 'tell', lambda I, o, a, k: c._cur.cur)
+
+            def seek(I, o, a, k):
+                st = c._cur
+                whence = a[1] if len(a) > 1 else k.get('whence', 0)
+                st.pos = (st.pos if hasattr(st, 'pos') else st.cur) + a[0] if whence == 1 else a[0]
+                st.log.append(('seek', a[0], whence))
+            reg.method_('GvfHandle13p', 'seek', seek)
+
+            def read(I, o, a, k):
+                st = c._cur
+                st.log.append(('read', st.pos if hasattr(st, 'pos') else st.cur, a[0] if a else None))
+                return _Block13(c)
+            reg.method_('GvfHandle13p', 'read', read)
+            mk = lambda kind: (lambda I, a, k: SymObj('Parsed13p', kind=kind, of=a[0]))
+            reg.func_(SIO, 'line_to_variant_record', mk('variant'))
+            reg.func_(CIO, 'line_to_circ_model', mk('circ'))
+            reg.ext_('io.line_to_variant_record', mk('variant'))
+            reg.ext_('circ.io.line_to_circ_model', mk('circ'))
+            reg.on_yield = lambda I, frame, v: c._cur.yielded.append(v)
+        return (inst,)
+
+    def head(self, I, env, k):
+        self._cur.mark = len(self._cur.yielded)
+
+    def step(self, I, env, k):
+        st = self._cur
+        new = st.yielded[st.mark:]
+        ok = len(new) == 1 and isinstance(new[0], SymObj) and new[0].cls == 'Parsed13p' and isinstance(new[0].fields['of'], SymObj) and new[0].fields['of'].cls == 'BlockLine13'
+        if not ok:
+            return [('one-record-per-line-of-the-block', False)]
+        want = 'circ' if I.e.branch(st.is_circ, 'circRNA file') else 'variant'
+        return [('one-record-per-line-of-the-block', new[0].fields['of'].fields['j'] == k), ('parsed-by-the-reader-of-the-file-kind', new[0].fields['kind'] == want)]
+
+    @property
+    def loops(self):
+        return {0: LoopSpec(inv=lambda I, env, k: [], on_head=self.head, step=self.step, target_after='unknown',
+                            on_break=lambda I, env, k: [('every-line-is-visited', False)],
+                            on_exit=lambda I, env, n: [('exactly-the-lines-of-the-block-were-visited', n == self._cur.m)])}
+
+    def post_return(self, I, st, ret):
+        reads = [x for x in st.log if x[0] == 'read']
+        I.e.prove('C13/pointer-iter/reads-exactly-its-byte-range-once', z3.And(reads[0][1] == st.start, reads[0][2] == st.end - st.start) if len(reads) == 1 and reads[0][2] is not None else False)
+
+
+# ----------------------------------------------------------------------------
 # byte-offset index of a GVF file
 # ----------------------------------------------------------------------------
 from .c11 import LinesModel, BytesLine, TextLine, Key
@@ -707,6 +804,8 @@ class OpenerOpen(Contract):
         st.N = e.int('n_files')
         e.assume(st.N >= 0)
         st.has_idx = z3.Function('idx_file_exists', I_, B_)
+        # the same path may be given twice; two different paths may share their base name
+        st.same_path, st.same_base = z3.Function('same_path_given_earlier', I_, B_), z3.Function('same_base_name_given_earlier', I_, B_)
 
         class Handles:
             def sym_method(s_, I2, name, a, k):
@@ -729,6 +828,23 @@ class OpenerOpen(Contract):
             reg.method_('PathStub13', 'open', lambda I, o, a, k: SymObj('Handle13', i=o.fields['i']))
             reg.method_('PathStub13', 'with_suffix', lambda I, o, a, k: SymObj('IdxPath13', i=o.fields['i']))
             reg.attr_('PathStub13', 'suffix', lambda I, o: '.gvf')
+            for nm in ('name', 'stem'):
+                reg.attr_('PathStub13', nm, lambda I, o: SymObj('BaseName13', i=o.fields['i']))
+
+            class Seen:
+                """a set the function keeps of what it has opened: asked whether a path / a base name was met before"""
+                def sym_contains(s_, I, item):
+                    if isinstance(item, SymObj) and item.cls == 'PathStub13':
+                        return st_().same_path(item.fields['i'])
+                    if isinstance(item, SymObj) and item.cls == 'BaseName13':
+                        return st_().same_base(item.fields['i'])
+                    raise Unsupported(f'membership of {item!r}')
+
+                def sym_method(s_, I, name, a, k):
+                    if name == 'add':
+                        return None
+                    raise Unsupported(f'set.{name}')
+            reg.empty_set_hook = lambda I: Seen()
             reg.method_('IdxPath13', 'exists', lambda I, o, a, k: st_().has_idx(o.fields['i']))
             for nm in ('validate_gvf_index', 'load_index', 'generate_index'):
                 reg.method_('PoolStub13', nm, lambda I, o, a, k, nm=nm: st_().log.append((nm, a)))
@@ -749,11 +865,16 @@ class OpenerOpen(Contract):
         if names == ['handle', 'generate_index']:
             a_g = new[1][1]
             return [('without-idx: index-generated-from-this-file', z3.And(z3.Not(st.has_idx(k)), same(a_g[0]) and a_g[1] is new[0][1]))]
+        if not names:
+            # a file may be passed over only when the very same path was already opened (its records would be read twice otherwise
+            # and merged again by set()); another file with the same base name is a different file
+            I.e.assume(z3.Implies(st.same_path(k), st.same_base(k)))
+            return [('a-file-is-passed-over-only-if-the-same-path-was-opened-before', st.same_path(k))]
         return [('each-file-is-indexed-in-one-of-the-two-ways', False)]
 
     @property
     def loops(self):
-        return {0: LoopSpec(inv=lambda I, env, k: [], on_head=self.on_head, step=self.step)}
+        return {0: LoopSpec(inv=lambda I, env, k: [], on_head=self.on_head, step=self.step, target_after='unknown')}
 
 
 
